@@ -986,7 +986,7 @@ func digestOf(b []byte) string { return fmt.Sprintf("%d:%08x", len(b), crc32.Che
 
 // pagedSetCase: RecordSet.WriteTo (version 2, uncompressed) appended to a real page buffer that already holds `pre`
 // bytes; the result is the buffer content from 16 bytes before the record set to the end.
-func pagedSetCase(pre int, rs []rec) (string, string) {
+func pagedSetCase(pre int, codec int, rs []rec) (string, string) {
 	op := fmt.Sprintf("pwset2 %d 0 0 %s", pre, recsArg(rs, false))
 	out := ""
 	res := guard2(func() {
@@ -997,7 +997,7 @@ func pagedSetCase(pre int, rs []rec) (string, string) {
 			prefix[i] = byte(i % 251)
 		}
 		pb.Write(prefix)
-		set := protocol.RecordSet{Version: 2, Records: protocol.NewRecordReader(toProtoRecords(rs)...)}
+		set := protocol.RecordSet{Version: 2, Attributes: protocol.Attributes(codec), Records: protocol.NewRecordReader(toProtoRecords(rs)...)}
 		if _, err := pb.WriteRecordSet(&set); err != nil {
 			out = "error"
 			return
@@ -1006,7 +1006,15 @@ func pagedSetCase(pre int, rs []rec) (string, string) {
 		if from < 0 {
 			from = 0
 		}
-		out = wb(pb.ReadAt(int(pb.Size())-from, int64(from)))
+		tail := pb.ReadAt(int(pb.Size())-from, int64(from))
+		out = wb(tail)
+		if codec != 0 {
+			plain := ""
+			if d, err := decompressWith(codec, tail[pre-from+4+61:]); err == nil {
+				plain = wb(d)
+			}
+			op = fmt.Sprintf("pwset2c %d %d 0 %s %s", pre, codec, recsArg(rs, false), plain)
+		}
 	})
 	if res != "" {
 		return op, res
@@ -1376,10 +1384,14 @@ func main() {
 			if !thorough {
 				pre = 65536 - 70 + r.Intn(73)
 			}
-			ops, res := pagedSetCase(pre, genRecs(r, 1+r.Intn(3), 0, true))
+			ops, res := pagedSetCase(pre, 0, genRecs(r, 1+r.Intn(3), 0, true))
 			emit(ops, res)
+			if i%2 == 0 || thorough {
+				ops, res = pagedSetCase(pre, 1+r.Intn(4), genRecs(r, 1+r.Intn(3), 0, true))
+				emit(ops, res)
+			}
 		}
-		ops, res := pagedSetCase(r.Intn(50), genRecs(r, 1+r.Intn(3), 0, true))
+		ops, res := pagedSetCase(r.Intn(50), 0, genRecs(r, 1+r.Intn(3), 0, true))
 		emit(ops, res)
 	}
 
